@@ -202,6 +202,173 @@ def probe_specs():
     ]
 
 
+# ---------------------------------------------------------------- process boundary: transports and pools
+def _ship(obj):
+    """what multiprocessing does to every task and result of a pool"""
+    return pickle.loads(bytes(ForkingPickler.dumps(obj)))
+
+
+def _first(x):
+    return x
+
+
+def _via_parallel_job(obj, kwargs=False):
+    """the object as bound argument of the ParallelJob that yaw pickles with each task"""
+    from yaw.utils.parallel import ParallelJob
+    job = ParallelJob(_first, (), dict(x=obj)) if kwargs else ParallelJob(_first, (obj,), {}, unpack=True)
+    job = _ship(job)
+    return job.func_kwargs["x"] if kwargs else job.func_args[0]
+
+
+TRANSPORTS = dict(
+    [("pickle-p%d" % k, (lambda o, k=k: pickle.loads(pickle.dumps(o, protocol=k)))) for k in range(pickle.HIGHEST_PROTOCOL + 1)]
+    + [("forking-pickler", _ship),
+       ("copy", copy.copy),
+       ("deepcopy", copy.deepcopy),
+       ("parallel-job-args", _via_parallel_job),
+       ("parallel-job-kwargs", lambda o: _via_parallel_job(o, kwargs=True))])
+USE_TRANSPORTS = ["pickle-p2", "pickle-p%d" % pickle.HIGHEST_PROTOCOL, "forking-pickler", "copy", "deepcopy",
+                  "parallel-job-args", "parallel-job-kwargs", "binning-copy"]
+
+
+def transport(kind, obj):
+    from yaw.binning import Binning
+    if kind == "binning-copy":      # Binning.copy(): what HistData / the count containers store
+        return obj.copy() if isinstance(obj, Binning) else obj
+    return TRANSPORTS[kind](obj)
+
+
+def transport_class(kind):
+    return "pickle" if kind.startswith("pickle-p") else kind
+
+
+def binning_of(obj):
+    """the Binning a Binning / BinningConfig / Configuration / result container carries"""
+    from yaw.binning import Binning
+    b = obj
+    for _ in range(3):
+        if isinstance(b, Binning):
+            return b
+        b = b.binning
+    raise TypeError("no Binning inside %r" % type(obj).__name__)
+
+
+def describe(obj):
+    """(closed side as reported, edges as reported)"""
+    b = binning_of(obj)
+    return (str(b.closed), [float(x) for x in np.asarray(b.edges, dtype="f8")])
+
+
+def _echo(obj):
+    """runs in a worker process: what the worker sees, and the object itself for the way back"""
+    return (describe(obj), obj)
+
+
+class PicklingPool(simpool.FakePool):
+    """FakePool + the one thing a real pool does to data: every task (function with its bound
+    arguments, item) and every result goes through ForkingPickler; the tasks run in this process"""
+
+    def map(self, func, items):
+        items = list(items)
+        order = self.mp.schedule.perm(len(items))
+        out = [None] * len(items)
+        for i in order:
+            f, a = _ship((func, items[i]))
+            out[i] = _ship(f(a))
+        return out
+
+    def imap_unordered(self, func, iterable):
+        items = list(iterable)
+        results = []
+        for x in items:
+            f, a = _ship((func, x))
+            results.append(_ship(f(a)))
+        order = self.mp.schedule.perm(len(items))
+        self.mp.imap_orders.append(order)
+        for i in order:
+            yield results[i]
+
+
+class PicklingMP(simpool.FakeMP):
+    def Pool(self, n=None):
+        return PicklingPool(self, n)
+
+
+class pool_flavour:
+    """context: where the parallel entry points of yaw do their work for one case"""
+
+    def __init__(self, spec):
+        self.flavour = spec.get("pool")
+        self.workers = int(spec.get("workers") or 1)
+        self.seed = int(spec.get("order_seed") or 0)
+        self.px = None
+
+    def __enter__(self):
+        impl.set_threads(self.workers)          # the ./check wrapper exports YAW_NUM_THREADS=1
+        if self.flavour == "pickling":
+            self.px = simpool.patched(catalog=False, parallel=True)
+            self.px.mp = PicklingMP(simpool.Schedule("random", seed=self.seed))
+            self.px.__enter__()
+        return self
+
+    def __exit__(self, *a):
+        if self.px is not None:
+            self.px.__exit__(*a)
+        impl.set_threads(1)
+        return False
+
+
+def flavour_of(spec):
+    if spec.get("transport"):
+        return "transported-binning"
+    if spec.get("pool") == "real":
+        return "worker-processes"
+    if spec.get("pool") == "pickling":
+        return "pickling-pool"
+    return ""
+
+
+def boundary_probe_specs():
+    """deterministic: redshifts on every edge, midpoints, below and above, both closed sides, through every way
+    the binning can reach the code that bins"""
+    out = []
+    for closed in ("left", "right"):
+        base = dict(closed=closed, hasw=True, edges=[0.25, 0.5, 1.0],
+                    patches=[[(0.25, 0.5), (0.5, 1.0), (1.0, 2.0), (0.375, 4.0)], [(0.5, 0.25), (0.75, 8.0), (0.125, 0.125), (1.5, 16.0)]])
+        flavours = [dict(pool="real", workers=2), dict(pool="real", workers=3), dict(pool="pickling", workers=2)]
+        flavours += [dict(transport=t) for t in USE_TRANSPORTS]
+        for k, fl in enumerate(flavours):
+            name = fl.get("transport") or "%s%d" % (fl["pool"], fl["workers"])
+            out.append(dict(base, tag="probe:boundary:%s:%s" % (name, closed), meas=["auto", "cross", "auto"][k % 3],
+                            cfg=["binning", "configuration"][k % 2], **fl))
+        # an unweighted single patch whose only inside object sits on the closed outer edge
+        z_closed, z_open = (1.0, 0.25) if closed == "right" else (0.25, 1.0)
+        for fl in (dict(pool="real", workers=2), dict(pool="pickling", workers=2), dict(transport="forking-pickler")):
+            name = fl.get("transport") or fl["pool"]
+            out.append(dict(tag="probe:boundary-outer:%s:%s" % (name, closed), closed=closed, hasw=False, edges=[0.25, 0.5, 1.0],
+                            patches=[[(z_closed, 1.0), (z_open, 1.0)]], meas="auto", cfg="configuration", **fl))
+    return out
+
+
+def boundary_specs(ctx):
+    rng = ctx.rng
+    out = boundary_probe_specs()
+    # the exhaustive placements once more, every task and result pickled
+    for spec in exhaustive_specs({1: 2, 2: 1} if ctx.quick() else {1: 3, 2: 2}):
+        out.append(dict(spec, tag=spec["tag"] + ":pickling", pool="pickling", workers=2, order_seed=len(out)))
+    for _ in range(ctx.n(40, 200)):
+        spec = random_spec(rng)
+        out.append(dict(spec, tag=spec["tag"] + ":real", pool="real", workers=rng.choice([2, 2, 3, 4])))
+    for _ in range(ctx.n(40, 200)):
+        spec = random_spec(rng)
+        out.append(dict(spec, tag=spec["tag"] + ":pickling", pool="pickling", workers=rng.choice([2, 3, 5]),
+                        order_seed=rng.randrange(10 ** 6)))
+    for _ in range(ctx.n(48, 240)):
+        spec = random_spec(rng)
+        out.append(dict(spec, tag=spec["tag"] + ":transport", transport=rng.choice(USE_TRANSPORTS)))
+    return out
+
+
 # ---------------------------------------------------------------- running the implementation
 def make_frames(spec):
     ra, dec, z, w, pid = [], [], [], [], []
@@ -221,7 +388,9 @@ def make_frames(spec):
 
 def observe(ctx, spec, idx):
     """returns dict(trees=[per patch list of (n, w) or None], hist=list or None, meas=matrix or None,
-    errors={where: 'Type: message'})"""
+    errors={where: 'Type: message'}, reported={where: (closed, edges)})
+    spec['pool'] / spec['workers']: the parallel entry points run on worker processes ('real') or on the pickling
+    pool; spec['transport']: the binning / configuration went through that transport before it is used"""
     import yaw
     from yaw.binning import Binning
     from yaw.catalog.trees import BinnedTrees
@@ -230,6 +399,9 @@ def observe(ctx, spec, idx):
 
     impl.set_threads(1)
     edges, closed, hasw = spec["edges"], spec["closed"], spec["hasw"]
+    tkind = spec.get("transport")
+    W = int(spec.get("workers") or 1)
+    sent = (lambda o: transport(tkind, o)) if tkind else (lambda o: o)
     P = len(spec["patches"])
     cols = make_frames(spec)
     kw = dict(ra_name="ra", dec_name="dec", patch_name="pid", max_workers=1)
@@ -238,21 +410,27 @@ def observe(ctx, spec, idx):
     cache = impl.fresh_dir(ctx, "cat_%d" % idx)
     cache_u = None
     errors = {}
+    reported = {}
     try:
         cat = impl.Catalog.from_dataframe(cache, impl.make_df(cols), redshift_name="z", **kw)
         assert sorted(int(k) for k in cat.keys()) == list(range(P)), "patch ids"
-        for (pe, pc) in (spec.get("prior") or []):
+        with pool_flavour(spec):
+            for (pe, pc) in (spec.get("prior") or []):
+                try:
+                    cat.build_trees(None if pe is None else np.asarray(pe, dtype="f8"), closed=pc, max_workers=W)
+                except Exception:  # noqa: BLE001 - an earlier build that fails is part of the history, not the observation
+                    pass
+            # ---- consumer 1: the trees
+            whole = None
             try:
-                cat.build_trees(None if pe is None else np.asarray(pe, dtype="f8"), closed=pc, max_workers=1)
-            except Exception:  # noqa: BLE001 - an earlier build that fails is part of the history, not the observation
-                pass
-        # ---- consumer 1: the trees
-        whole = None
-        try:
-            cat.build_trees(np.asarray(edges, dtype="f8"), closed=closed, max_workers=1)
-        except Exception as e:  # noqa: BLE001 - the class is part of the observation
-            whole = e
-            errors["build_trees"] = "%s: %s" % (type(e).__name__, e)
+                if tkind:   # the Binning object itself arrives through the transport (as it does in a worker)
+                    for p in range(P):
+                        BinnedTrees.build(cat[p], sent(Binning(edges, closed=closed)), force=True)
+                else:
+                    cat.build_trees(np.asarray(edges, dtype="f8"), closed=closed, max_workers=W)
+            except Exception as e:  # noqa: BLE001 - the class is part of the observation
+                whole = e
+                errors["build_trees"] = "%s: %s" % (type(e).__name__, e)
         trees = []
         for p in range(P):
             patch = cat[p]
@@ -263,40 +441,48 @@ def observe(ctx, spec, idx):
                     errors["build_trees[patch %d]" % p] = "%s: %s" % (type(e).__name__, e)
                     trees.append(None)
                     continue
-            trees.append([(int(t.num_records), float(t.sum_weights)) for t in BinnedTrees(patch)])
-        # ---- consumer 2: the histogram
-        hist = None
-        try:
-            if spec["cfg"] == "binning":
-                conf = BinningConfig.create(edges=edges, closed=closed)
-            else:
-                conf = impl.Configuration.create(rmin=100.0, rmax=1000.0, edges=edges, closed=closed, max_workers=1)
-            hist = [float(x) for x in HistData.from_catalog(cat, conf, max_workers=1).data]
-        except Exception as e:  # noqa: BLE001
-            errors["hist"] = "%s: %s" % (type(e).__name__, e)
-        # ---- consumer 3: per-bin sum_weights of a measurement
-        meas = None
-        if spec["meas"] and whole is None:
-            old = np.seterr(invalid="ignore")  # single-object patches have radius 0 (0/0 in the patch-centre check)
+            bt = BinnedTrees(patch)
+            trees.append([(int(t.num_records), float(t.sum_weights)) for t in bt])
+            if whole is None and p == 0:
+                reported["tree-cache"] = describe(bt.binning)
+        with pool_flavour(spec):
+            # ---- consumer 2: the histogram
+            hist = None
             try:
-                conf = impl.Configuration.create(rmin=100.0, rmax=1000.0, edges=edges, closed=closed, max_workers=1)
-                if spec["meas"] == "auto":
-                    cf = yaw.autocorrelate(conf, cat, cat, count_rr=False, max_workers=1)[0]
-                    sw = cf.dd.sum_weights
-                    if not np.array_equal(sw.sum_weights1, sw.sum_weights2):
-                        errors["meas"] = "autocorrelation: sum_weights1 != sum_weights2"
+                if spec["cfg"] == "binning":
+                    conf = BinningConfig.create(edges=edges, closed=closed)
                 else:
-                    cache_u = impl.fresh_dir(ctx, "catu_%d" % idx)
-                    cat_u = impl.Catalog.from_dataframe(cache_u, impl.make_df(cols), **kw)
-                    cf = yaw.crosscorrelate(conf, cat, cat_u, unk_rand=cat_u, max_workers=1)[0]
-                    sw = cf.dd.sum_weights
-                meas = [[float(x) for x in row] for row in np.asarray(sw.sum_weights1)]
+                    conf = impl.Configuration.create(rmin=100.0, rmax=1000.0, edges=edges, closed=closed, max_workers=W)
+                hd = HistData.from_catalog(cat, sent(conf), max_workers=W)
+                hist = [float(x) for x in hd.data]
+                reported["HistData"] = describe(hd)
             except Exception as e:  # noqa: BLE001
-                errors["meas"] = "%s: %s" % (type(e).__name__, e)
-            finally:
-                np.seterr(**old)
-        return dict(trees=trees, hist=hist, meas=meas, errors=errors)
+                errors["hist"] = "%s: %s" % (type(e).__name__, e)
+            # ---- consumer 3: per-bin sum_weights of a measurement
+            meas = None
+            if spec["meas"] and whole is None:
+                old = np.seterr(invalid="ignore")  # single-object patches have radius 0 (0/0 in the patch-centre check)
+                try:
+                    conf = sent(impl.Configuration.create(rmin=100.0, rmax=1000.0, edges=edges, closed=closed, max_workers=W))
+                    if spec["meas"] == "auto":
+                        cf = yaw.autocorrelate(conf, cat, cat, count_rr=False, max_workers=W)[0]
+                        sw = cf.dd.sum_weights
+                        if not np.array_equal(sw.sum_weights1, sw.sum_weights2):
+                            errors["meas"] = "autocorrelation: sum_weights1 != sum_weights2"
+                    else:
+                        cache_u = impl.fresh_dir(ctx, "catu_%d" % idx)
+                        cat_u = impl.Catalog.from_dataframe(cache_u, impl.make_df(cols), **kw)
+                        cf = yaw.crosscorrelate(conf, cat, cat_u, unk_rand=cat_u, max_workers=W)[0]
+                        sw = cf.dd.sum_weights
+                    meas = [[float(x) for x in row] for row in np.asarray(sw.sum_weights1)]
+                    reported["CorrFunc"] = describe(cf)
+                except Exception as e:  # noqa: BLE001
+                    errors["meas"] = "%s: %s" % (type(e).__name__, e)
+                finally:
+                    np.seterr(**old)
+        return dict(trees=trees, hist=hist, meas=meas, errors=errors, reported=reported)
     finally:
+        impl.set_threads(1)
         shutil.rmtree(cache, ignore_errors=True)
         if cache_u:
             shutil.rmtree(cache_u, ignore_errors=True)
